@@ -83,6 +83,9 @@ impl TimeStrategy {
             }
         }
 
+        #[cfg(jgilchrist_tcheran_verif)]
+        crate::verif_hooks::limits(soft_stop, hard_stop);
+
         let force_stop = Arc::new(AtomicBool::new(false));
 
         let control = Control {
